@@ -809,6 +809,16 @@ class rrule(rrulebase):
         byminute = self._byminute
         bysecond = self._bysecond
 
+        if freq == WEEKLY and bysetpos and weekday != wkst:
+            # BYSETPOS selects positions within the whole week, as it does
+            # within the whole month or year: begin the first period at the
+            # week start (occurrences before dtstart are dropped below).
+            first = self._dtstart.toordinal() - (weekday - wkst) % 7
+            if first >= 1:
+                year, month, day = \
+                    datetime.date.fromordinal(first).timetuple()[:3]
+                weekday = wkst
+
         ii = _iterinfo(self)
         ii.rebuild(year, month)
 
